@@ -36,6 +36,8 @@ pub struct BlockResult {
     pub count: u64,
     /// per-run event-log digests, in run order (may be shorter than count after a violation)
     pub digests: Vec<u64>,
+    /// per-run digests of the callers' observations only (empty: same as `digests`)
+    pub stable_digests: Vec<u64>,
     /// hashes of distinct non-trivial cases (history shapes / interleavings)
     pub distinct: Vec<u64>,
     pub counters: BTreeMap<String, u64>,
@@ -49,6 +51,7 @@ impl BlockResult {
             "first": self.first,
             "count": self.count,
             "digests": self.digests.iter().map(|d| format!("{d:016x}")).collect::<Vec<_>>(),
+            "stable_digests": self.stable_digests.iter().map(|d| format!("{d:016x}")).collect::<Vec<_>>(),
             "distinct": self.distinct.iter().map(|d| format!("{d:016x}")).collect::<Vec<_>>(),
             "counters": self.counters,
             "violation": self.violation,
@@ -72,6 +75,7 @@ impl BlockResult {
             first: v["first"].as_u64().ok_or("block result: missing first")?,
             count: v["count"].as_u64().ok_or("block result: missing count")?,
             digests: hexes("digests")?,
+            stable_digests: if v["stable_digests"].is_array() { hexes("stable_digests")? } else { vec![] },
             distinct: hexes("distinct")?,
             counters,
             violation: if v["violation"].is_null() { None } else { Some(v["violation"].clone()) },
@@ -154,6 +158,7 @@ pub struct Plan {
 pub struct Reduced {
     pub runs_done: u64,
     pub digests: BTreeMap<u64, u64>,
+    pub stable_digests: BTreeMap<u64, u64>,
     pub distinct: BTreeSet<u64>,
     pub counters: BTreeMap<String, u64>,
     /// (run index, violation json) of the lowest-indexed violating run
@@ -195,6 +200,7 @@ pub fn run_plan(plan: &Plan) -> Result<Reduced, String> {
     let mut red = Reduced {
         runs_done: 0,
         digests: BTreeMap::new(),
+        stable_digests: BTreeMap::new(),
         distinct: BTreeSet::new(),
         counters: BTreeMap::new(),
         violation: None,
@@ -205,6 +211,7 @@ pub fn run_plan(plan: &Plan) -> Result<Reduced, String> {
         let br = r?;
         for (i, d) in br.digests.iter().enumerate() {
             red.digests.insert(br.first + i as u64, *d);
+            red.stable_digests.insert(br.first + i as u64, br.stable_digests.get(i).copied().unwrap_or(*d));
         }
         red.runs_done += br.digests.len() as u64;
         red.distinct.extend(br.distinct.iter().copied());
